@@ -1691,7 +1691,16 @@ class _HTTPStorageServer:
 
         # Wait for all the queries to finish:
         for share_number, pending_result in pending_reads.items():
-            reads[share_number] = yield pending_result
+            try:
+                reads[share_number] = yield pending_result
+            except defer.FirstError as e:
+                # Like the Foolscap server, leave out shares that don't exist.
+                if (
+                    e.subFailure.check(ClientException)
+                    and e.subFailure.value.code == http.NOT_FOUND
+                ):
+                    continue
+                raise
 
         return reads
 
